@@ -823,3 +823,48 @@ func (p *PacketConn) SetReadBuffer(int) (err error) { return nil }
 
 // SetWriteBuffer lets quic-go believe it enlarged the socket buffer.
 func (p *PacketConn) SetWriteBuffer(int) (err error) { return nil }
+
+// ---- connected datagram socket ----
+
+// UDPConn is a client datagram socket connected to one remote address.
+type UDPConn struct {
+	*PacketConn
+	remote netip.AddrPort
+}
+
+// DialUDP binds a datagram socket at local and connects it to address.
+func (n *Net) DialUDP(address string, local netip.AddrPort) (c *UDPConn, err error) {
+	ap, err := normAddr(address)
+	if err != nil {
+		return nil, err
+	}
+
+	pc, err := n.bindPacket(local)
+	if err != nil {
+		return nil, err
+	}
+
+	return &UDPConn{PacketConn: pc, remote: ap}, nil
+}
+
+// Read implements the net.Conn interface for *UDPConn.
+func (c *UDPConn) Read(b []byte) (n int, err error) {
+	for {
+		var from net.Addr
+		n, from, err = c.PacketConn.ReadFrom(b)
+		if err != nil {
+			return 0, err
+		}
+		if ua, ok := from.(*net.UDPAddr); ok && ua.AddrPort() == c.remote {
+			return n, nil
+		}
+	}
+}
+
+// Write implements the net.Conn interface for *UDPConn.
+func (c *UDPConn) Write(b []byte) (n int, err error) {
+	return c.PacketConn.WriteTo(b, net.UDPAddrFromAddrPort(c.remote))
+}
+
+// RemoteAddr implements the net.Conn interface for *UDPConn.
+func (c *UDPConn) RemoteAddr() (a net.Addr) { return net.UDPAddrFromAddrPort(c.remote) }
